@@ -7,7 +7,7 @@
      wf_disc rules      : discovered dependencies are rules that observe external state (r_obs = true);
      wf_order order     : the dependency-order oracle returns a permutation of the requested list;
      (rank k < fuel)    : the fuel suffices for the key that is built;
-     AtRest rules F s   : the environment-free invariant of states between builds (bounds, memory/database
+     AtRest F R s   : the environment-free invariant of states between builds (bounds, memory/database
                           agreement, and the per-row consistency INV); it holds of [init_state] and is preserved by
                           every history operation.
    The task function F, the environment env and the oracle are universally quantified. *)
@@ -16,18 +16,18 @@ From LLB Require Import Engine.Rules Engine.Spec Engine.Exec Engine.SpecFrame En
 Local Open Scope N_scope.
 
 (* a successful build of k from any state satisfying the invariant returns the clean value of k *)
-Theorem c01_incremental_eq_clean : forall rules env F order rank,
-  wf_rank rules rank -> wf_disc rules -> wf_order order ->
-  forall fuel s k s', (rank k < fuel)%nat -> AtRest rules F s ->
+Theorem c01_incremental_eq_clean : forall rules env F order rank R,
+  table_ok rules R -> wf_rank rules rank -> wf_disc rules -> wf_order order ->
+  forall fuel s k s', (rank k < fuel)%nat -> AtRest F R s ->
   build rules env F order fuel s k = Ok s' -> result_of s' k = cv rules env F fuel k.
 Proof. exact c01_incremental_eq_clean_thm. Qed.
 Print Assumptions c01_incremental_eq_clean.
 
 (* ... and leaves a state satisfying the invariant *)
-Theorem c01_build_preserves : forall rules env F order rank,
-  wf_rank rules rank -> wf_disc rules -> wf_order order ->
-  forall fuel s k s', (rank k < fuel)%nat -> AtRest rules F s ->
-  build rules env F order fuel s k = Ok s' -> AtRest rules F s'.
+Theorem c01_build_preserves : forall rules env F order rank R,
+  table_ok rules R -> wf_rank rules rank -> wf_disc rules -> wf_order order ->
+  forall fuel s k s', (rank k < fuel)%nat -> AtRest F R s ->
+  build rules env F order fuel s k = Ok s' -> AtRest F R s'.
 Proof. exact c01_build_preserves_thm. Qed.
 Print Assumptions c01_build_preserves.
 
@@ -36,21 +36,21 @@ Theorem c01_fresh : forall rules env F order rank,
   wf_rank rules rank -> wf_disc rules -> wf_order order ->
   forall fuel k s', (rank k < fuel)%nat ->
   build rules env F order fuel init_state k = Ok s' -> result_of s' k = cv rules env F fuel k.
-Proof. exact c01_fresh_thm. Qed.
+Proof. exact c01_fresh_plain. Qed.
 Print Assumptions c01_fresh.
 
 (* under the rank hypothesis a build neither reports a cycle nor runs out of fuel *)
-Theorem c01_no_cycle_when_ranked : forall rules env F order rank,
-  wf_rank rules rank -> wf_disc rules -> wf_order order ->
-  forall fuel s k, (rank k < fuel)%nat -> AtRest rules F s ->
+Theorem c01_no_cycle_when_ranked : forall rules env F order rank R,
+  table_ok rules R -> wf_rank rules rank -> wf_disc rules -> wf_order order ->
+  forall fuel s k, (rank k < fuel)%nat -> AtRest F R s ->
   exists s', build rules env F order fuel s k = Ok s'.
 Proof. exact c01_no_cycle_when_ranked_thm. Qed.
 Print Assumptions c01_no_cycle_when_ranked.
 
 (* every value handed to a task during the build is the current clean value of that input *)
-Theorem c01_inputs_current : forall rules env F order rank,
-  wf_rank rules rank -> wf_disc rules -> wf_order order ->
-  forall fuel s k s', (rank k < fuel)%nat -> AtRest rules F s ->
+Theorem c01_inputs_current : forall rules env F order rank R,
+  table_ok rules R -> wf_rank rules rank -> wf_disc rules -> wf_order order ->
+  forall fuel s k s', (rank k < fuel)%nat -> AtRest F R s ->
   build rules env F order fuel s k = Ok s' ->
   exists l, st_log s' = l ++ st_log s /\
     forall k0 slot d v f, In (EProvide k0 slot d v) l -> (rank d < f)%nat -> v = cv rules env F f d.
@@ -60,17 +60,17 @@ Print Assumptions c01_inputs_current.
 (* ---- histories (Exec.v) over a fixed rule table ---- *)
 
 (* the invariant holds of the initial state ... *)
-Theorem c01_init : forall rules F, AtRest rules F init_state.
+Theorem c01_init : forall F R, AtRest F R init_state.
 Proof. exact AtRest_init. Qed.
 Print Assumptions c01_init.
 
 (* ... does not mention the environment (so [OSet] preserves it trivially), and is preserved by a new engine
    instance with or without the database *)
-Theorem c01_restart : forall rules F s, AtRest rules F s -> AtRest rules F (restart s).
+Theorem c01_restart : forall F R s, AtRest F R s -> AtRest F R (restart s).
 Proof. exact AtRest_restart. Qed.
 Print Assumptions c01_restart.
 
-Theorem c01_restart_nodb : forall rules F s, AtRest rules F (restart_nodb s).
+Theorem c01_restart_nodb : forall F R s, AtRest F R (restart_nodb s).
 Proof. exact AtRest_restart_nodb. Qed.
 Print Assumptions c01_restart_nodb.
 
